@@ -25,6 +25,9 @@ BadSt   == [fg |-> Bad, bg |-> Bad, eff |-> {}]      \* result of an unknown SGR
 (* colour specification -> terminal colour, or Bad (the constructor must raise ValueError)   *)
 (*  [t |-> "none"] | [t |-> "name", n |-> 0..7 or 8 (unknown name)] | [t |-> "int", v]        *)
 (*  | [t |-> "rgb", r, g, b] | [t |-> "gray", n]                                              *)
+(*  | [t |-> "bool", v |-> 0 | 1]  (False / True: integers in range(256), hence codes 0 / 1)  *)
+(*  | [t |-> "rgbl", r, g, b]      (the triple given as a list)                               *)
+(*  | [t |-> "float", v] | [t |-> "obj"]  (7.0, a dict: invalid values)                       *)
 Resolve(c) ==
   CASE c.t = "none" -> NoCol
     [] c.t = "name" -> IF c.n \in 0 .. 7 THEN Name(c.n) ELSE Bad
@@ -32,6 +35,10 @@ Resolve(c) ==
     [] c.t = "rgb"  -> IF c.r \in 0 .. 5 /\ c.g \in 0 .. 5 /\ c.b \in 0 .. 5
                          THEN Idx(16 + 36 * c.r + 6 * c.g + c.b) ELSE Bad
     [] c.t = "gray" -> IF c.n \in 0 .. 23 THEN Idx(232 + c.n) ELSE Bad
+    [] c.t = "bool" -> Idx(c.v)
+    [] c.t = "rgbl" -> IF c.r \in 0 .. 5 /\ c.g \in 0 .. 5 /\ c.b \in 0 .. 5
+                         THEN Idx(16 + 36 * c.r + 6 * c.g + c.b) ELSE Bad
+    [] c.t \in {"float", "obj"} -> Bad
 
 (* cfg = [fg, bg, eff (set of effect names), nocolor] *)
 Valid(cfg) == cfg.nocolor \/ (Resolve(cfg.fg) # Bad /\ Resolve(cfg.bg) # Bad)
